@@ -233,3 +233,106 @@ Proof.
   apply (reachable_inv fm_cfg). exists [OSet [75] [118]; OSet [97] [49]; OSet [97] [50]]. split; [|reflexivity].
   cbn [run_ready op_ready]. auto.
 Qed.
+
+(* ---------- rows for listed records (what the final repair a53a922 is about) ----------
+   [hint_rows]: a file whose hint file lists something has a row of the statistics — so the downward-closed selection of
+   later merges takes it.  The loop keeps it, and so does a failing hint write when the row is written first, whether or
+   not the bytes of the hint entry reach the file at drop. *)
+Definition hint_rows (d : dir) (x : stats_t) : Prop :=
+  forall id f hs h, dir_get d id = Some f -> d_hint f = Some hs -> In h hs -> sget x id <> None.
+
+Definition loop_inv2 (m : mstate) : Prop :=
+  hint_rows (m_dir m) (m_stats m) /\ exists f hs, dir_get (m_dir m) (m_id m) = Some f /\ d_hint f = Some hs.
+
+Lemma merge_one_inv2 c m k l m' : loop_inv2 m -> merge_one c m k l = ROk m' -> loop_inv2 m'.
+Proof.
+  intros [HR (fm & hsm & Hfm & Hhm)] H. unfold merge_one in H.
+  destruct (read_loc (m_dir m) l) as [e| |]; try discriminate.
+  destruct (append_data (m_dir m) (m_id m) e) as [[d1 p]|] eqn:Ea; [|discriminate].
+  destruct (append_data_get _ _ _ _ _ Ea) as (f0 & Hf0 & Hd1). rewrite Hfm in Hf0. injection Hf0 as <-.
+  set (h := mkHint (l_ts l) (l_len l) (m_pos m) k) in *.
+  assert (Hg1 : dir_get d1 (m_id m) = Some (mkFile (d_data fm ++ [e]) (d_hint fm))) by (rewrite Hd1, N.eqb_refl; reflexivity).
+  pose proof (append_hint_get d1 (m_id m) h _ Hg1) as Hd2. cbn [d_data d_hint] in Hd2. rewrite Hhm in Hd2.
+  set (d2 := append_hint d1 (m_id m) h) in *.
+  set (x2 := aset (m_stats m) (m_id m) (add_live (sget0 (m_stats m) (m_id m)))) in *.
+  assert (HR2 : hint_rows d2 x2).
+  { intros id f hs h0 Hf Hhs Hin. unfold x2. rewrite sget_aset. destruct (N.eqb_spec id (m_id m)) as [->|E]; [discriminate|].
+    rewrite Hd2 in Hf. replace (m_id m =? id) with false in Hf by (symmetry; apply N.eqb_neq; congruence).
+    rewrite Hd1 in Hf. replace (m_id m =? id) with false in Hf by (symmetry; apply N.eqb_neq; congruence).
+    eapply HR; eassumption. }
+  destruct (c_max c <? m_pos m + l_len l).
+  - destruct (create_pair d2 (m_last m + 1)) as [d3|] eqn:Ec; [|discriminate]. injection H as <-.
+    destruct (create_pair_get _ _ _ Ec) as [Hnone Hd3]. split; cbn [m_dir m_stats m_id].
+    + intros id f hs h0 Hf Hhs Hin. rewrite Hd3 in Hf. destruct (N.eqb_spec (m_last m + 1) id) as [E|E].
+      * injection Hf as <-. cbn [d_hint] in Hhs. injection Hhs as <-. destruct Hin.
+      * eapply HR2; eassumption.
+    + rewrite Hd3, N.eqb_refl. eexists. eexists. split; reflexivity.
+  - injection H as <-. split; cbn [m_dir m_stats m_id]; [exact HR2|].
+    rewrite Hd2, N.eqb_refl. eexists. eexists. split; reflexivity.
+Qed.
+
+Lemma merge_loop_inv2 c sel : forall ord m m', loop_inv2 m -> merge_loop c sel m ord = ROk m' -> loop_inv2 m'.
+Proof.
+  induction ord as [|k ord IH]; intros m m' HJ H; cbn [merge_loop] in H.
+  - injection H as <-. exact HJ.
+  - destruct (iget (m_idx m) k) as [l|]; [|eapply IH; eassumption].
+    destruct (mem (l_fid l) sel); [|eapply IH; eassumption].
+    destruct (merge_one c m k l) as [m1| |] eqn:E1; try discriminate.
+    eapply IH; [eapply merge_one_inv2; eassumption|exact H].
+Qed.
+
+Theorem row_first_keeps_hint_rows repoint_first retried c s ord1 k s' : hint_rows (s_dir s) (s_stats s) ->
+  merge_fail_hint repoint_first true retried c s ord1 k = ROk s' -> hint_rows (s_dir s') (s_stats s').
+Proof.
+  intros HR H. unfold merge_fail_hint in H.
+  destruct (select c s) as [sel0| |]; try discriminate.
+  destruct (create_pair (s_dir s) (s_last s + 1)) as [d0|] eqn:Ec; [|discriminate].
+  destruct (create_pair_get _ _ _ Ec) as [Hnone Hd0].
+  set (m0 := mkM d0 (s_idx s) (s_stats s) (s_last s + 1) 0 (s_last s + 1) [SCreate (FHint (s_last s + 1)); SCreate (FData (s_last s + 1))]) in *.
+  assert (HJ0 : loop_inv2 m0).
+  { split; cbn [m0 m_dir m_stats m_id].
+    - intros id f hs h0 Hf Hhs Hin. rewrite Hd0 in Hf. destruct (N.eqb_spec (s_last s + 1) id) as [E|E].
+      + injection Hf as <-. cbn [d_hint] in Hhs. injection Hhs as <-. destruct Hin.
+      + eapply HR; eassumption.
+    - rewrite Hd0, N.eqb_refl. eexists. eexists. split; reflexivity. }
+  destruct (merge_loop c (sort_ids sel0) m0 ord1) as [m| |] eqn:El; try discriminate.
+  destruct (merge_loop_inv2 c _ _ _ _ HJ0 El) as [HRm (fm & hsm & Hfm & Hhm)].
+  destruct (iget (m_idx m) k) as [l|]; [|discriminate].
+  destruct (negb (mem (l_fid l) (sort_ids sel0))); [discriminate|].
+  destruct (read_loc (m_dir m) l) as [e| |]; try discriminate.
+  destruct (append_data (m_dir m) (m_id m) e) as [[d1 p]|] eqn:Ea; [|discriminate].
+  injection H as <-. cbn [s_dir s_stats]. rewrite orb_true_r.
+  destruct (append_data_get _ _ _ _ _ Ea) as (f0 & Hf0 & Hd1). rewrite Hfm in Hf0. injection Hf0 as <-.
+  assert (Hg1 : dir_get d1 (m_id m) = Some (mkFile (d_data fm ++ [e]) (d_hint fm))) by (rewrite Hd1, N.eqb_refl; reflexivity).
+  intros id f hs h0 Hf Hhs Hin. rewrite sget_aset. destruct (N.eqb_spec id (m_id m)) as [->|E]; [discriminate|].
+  assert (Hf' : dir_get (m_dir m) id = Some f).
+  { destruct retried.
+    - rewrite (append_hint_get d1 (m_id m) _ _ Hg1) in Hf. replace (m_id m =? id) with false in Hf by (symmetry; apply N.eqb_neq; congruence).
+      rewrite Hd1 in Hf. replace (m_id m =? id) with false in Hf by (symmetry; apply N.eqb_neq; congruence). exact Hf.
+    - rewrite Hd1 in Hf. replace (m_id m =? id) with false in Hf by (symmetry; apply N.eqb_neq; congruence). exact Hf. }
+  eapply HRm; eassumption.
+Qed.
+
+(* reachable states satisfy the hypothesis: a listed record is a record, and files that hold records have rows *)
+Theorem inv_hint_rows s : Inv s -> hint_rows (s_dir s) (s_stats s).
+Proof.
+  intros HI id f hs h Hf Hhs Hin.
+  pose proof HI as (Hs & _ & Hh & _ & _ & _ & (_ & _ & C3)).
+  pose proof (Hh id f (dir_get_In _ _ _ Hf)) as Hok. unfold hints_ok in Hok. rewrite Hhs in Hok. destruct Hok as [-> _].
+  intros E. apply (C3 id eq_refl) in E.
+  destruct (d_data f) as [|e0 es] eqn:Ed; [destruct Hin|].
+  assert (Hinlog : In (id, 0, e0) (log_of_dir (s_dir s))).
+  { clear - Hf Ed. induction (s_dir s) as [|[i g] d IH]; cbn [dir_get] in Hf; [discriminate|]. cbn [log_of_dir]. apply in_or_app.
+    destruct (N.eqb_spec i id) as [->|Hne]; [injection Hf as ->; left; rewrite Ed; left; reflexivity|right; auto]. }
+  assert (Hhas : has_file (log_of_dir (s_dir s)) id = true).
+  { unfold has_file. apply existsb_exists. exists (id, 0, e0). split; [exact Hinlog|]. cbn. apply N.eqb_refl. }
+  congruence.
+Qed.
+
+(* ... and with the hint entry before the row (first repair) it is lost when the bytes reach the file at drop *)
+Example hint_before_row_loses_the_row :
+  match merge_fail_hint false false true fm_cfg fm2_before [] [107] with
+  | ROk s' => exists id f h, dir_get (s_dir s') id = Some f /\ d_hint f = Some [h] /\ sget (s_stats s') id = None
+  | _ => False
+  end.
+Proof. vm_compute. exists 1. eexists. eexists. split; [reflexivity|]. split; reflexivity. Qed.
